@@ -103,7 +103,7 @@ def gen_cp_events(seed: int, n_steps: int = 2, n_streams: int = 2, sync_records:
                     k = synth.memcpy("Memcpy HtoD (Pageable -> Device)", kts, kdur, st, c, bw=3.5)
                 else:
                     k = synth.kernel(rng.choice(["void gemm_kernel", "ncclKernel_AllReduce_RING_LL_Sum_float", "void elementwise_kernel"] +
-                                                (["ncclAllReduceRingLLKernel_sum_f32(ncclColl)", "ncclBroadcastRingLLKernel_copy_i8(ncclColl)"] if old_nccl else [])), kts, kdur, st, c)  # NCCL 2.4-2.7 naming
+                                                (["ncclAllReduceRingLLKernel_sum_f32(ncclColl)", "ncclBroadcastRingLLKernel_copy_i8(ncclColl)", "void ncclKernel_AllReduce_RING_LL_Sum<float, 4>(ncclWork*)"] if old_nccl else [])), kts, kdur, st, c)  # NCCL 2.4-2.7 naming
                 kernels.append(k)
                 free[st] = math.ceil(kts + kdur) + q * rng.randint(0, 2)
                 last_end[st] = kts + kdur
